@@ -20,8 +20,10 @@
     * `NotLinkAt w rel` — no symlink node at the probed destination path.  The probes follow links; the model treats
       a symlink at a FILE's path as "never up to date", which the engine implements OUTSIDE this unit
       (src/sync/mod.rs:547-556) — `plan_file_async_file_over_link_fixup` proves that fix-up applied to the translated
-      planner's answer gives the model's answer, for every link target.  For a DIRECTORY entry over a link the model
-      declares the state outside its well-formedness; `plan_file_async_dir_over_link_to_dir` records what the code does;
+      planner's answer gives the model's answer, for every link target.  For a DIRECTORY entry over a link the engine's
+      planning loop overrides the answer with Update (fix 862af11, again OUTSIDE this unit):
+      `plan_file_async_dir_override_eq_model` states `planEntry` = override ∘ `plan_file_async` for EVERY destination
+      node, `plan_file_async_dir_over_link_probes_through` what `plan_file_async` alone still does;
     * `hsrc` — with `--checksum` the source file is a readable regular file (it was just scanned; otherwise see
       `plan_file_async_unreadable_source_updates`);
     * `CleanKeys w` — the destination keys are paths a walk can produce (non-empty components without `/`);
@@ -265,17 +267,80 @@ theorem plan_file_async_file_over_link_follows (p : StrategyPlanner) (hp : FromC
   simp only [planAt, hd, stat_join, PlanWorld.resolve, hl, hto, cksumsAt, hp.ver, hck, Bool.false_eq_true,
     ↓reduceIte, decideAct]
 
-/-- FINDING (known to the model, which puts this state outside its well-formedness — `planEntry`'s comment): for a
-    DIRECTORY entry over a destination symlink that resolves to a directory the code answers Skip (the probes follow
-    the link); the model's `planEntry` answers create. No fix-up applies (`!file.is_dir` in the engine). -/
-theorem plan_file_async_dir_over_link_to_dir (p : StrategyPlanner) (src : FileEntry) (w : PlanWorld) (t : Rs.Opaque)
-    (db : Option Rs.Opaque) (hd : src.is_dir = true) (text : String)
-    (hl : w.dst.get? (compsOf src.relative_path) = some (.symlink text))
-    (hto : w.through (compsOf src.relative_path) = .dir) (cfg : Cfg) :
-    ∃ task, runM (p.plan_file_async extOf src w.root t db) w = (.ok task, w) ∧ task.action = .Skip ∧
-      (planEntry cfg w.dst (absEntry w src)).act = .create := by
-  refine ⟨_, plan_file_async_run p src w t db, ?_, ?_⟩
-  · simp only [planAt, hd, stat_join, PlanWorld.resolve, hl, hto]
+/-- the engine's override after planning a DIRECTORY entry (src/sync/mod.rs planning loop, fix 862af11; NOT part of this
+    unit, transcribed by hand): `else if file.is_dir && matches!(read_link(&task.dest_path), Ok(Some(_)))` ⇒
+    `task.action = Update`.  `link` is what the `read_link` probe of the destination path answered. -/
+def overrideDirOverLink (isDir : Bool) (link : Option Rs.Path) (a : SyncAction) : SyncAction :=
+  if isDir && link.isSome then .Update else a
+
+/-- the probe the override asks, on the instance: `read_link` does not follow — it answers the text of a symlink node at
+    the key, `None` for anything else — and leaves the world alone -/
+theorem read_link_probe (w : PlanWorld) (t : Rs.Opaque) (rel : Rs.Path) :
+    runM (extOf.t_read_link t (Rs.join w.root rel)) w =
+      (.ok (match w.dst.get? (compsOf rel) with | some (.symlink s) => some s.toList | _ => none), w) := by
+  simp only [extOf_t_read_link, runM_probe, linkAt_join]
+  cases w.dst.get? (compsOf rel) with
+  | none => rfl
+  | some n => cases n <;> rfl
+
+/-- BRIDGE (directory entries, EVERY destination node — no `NotLinkAt`): the model's `planEntry` is the engine's
+    override applied to what the translated `plan_file_async` answers.  `plan_file_async` itself was not changed by fix
+    862af11: over a link it still probes THROUGH it (Skip when the link resolves to a directory, Create otherwise —
+    `plan_file_async_dir_over_link_probes_through`); the override turns either into Update, which is `planEntry`'s
+    answer for a symlink node; for every other node the override is the identity and `plan_file_async_dir_eq_model`
+    applies. -/
+theorem plan_file_async_dir_override_eq_model (p : StrategyPlanner) (src : FileEntry) (w : PlanWorld) (t : Rs.Opaque)
+    (db : Option Rs.Opaque) (hd : src.is_dir = true) (cfg : Cfg) :
+    ∃ task, runM (p.plan_file_async extOf src w.root t db) w = (.ok task, w) ∧
+      absTask w { task with action := overrideDirOverLink src.is_dir (w.linkAt task.dest_path) task.action } =
+        planEntry cfg w.dst (absEntry w src) := by
+  refine ⟨_, plan_file_async_run p src w t db, ?_⟩
+  have hdp : (planAt w p src db.isSome).1 = (planAt w p src db.isSome).1 := rfl
+  simp only [absTask, planEntry, absEntry, hd, ↓reduceIte, relOf_join, Option.getD_some, planAt, stat_join,
+    PlanWorld.resolve, overrideDirOverLink, linkAt_join, Bool.true_and]
+  cases hg : w.dst.get? (compsOf src.relative_path) with
+  | none => simp [absAct]
+  | some n =>
+    cases n with
+    | dir => simp [absAct]
+    | file d => simp [absAct]
+    | symlink s => simp [absAct]
+
+/-- the action alone, in the words of the task statement: `planEntry`'s action for a directory entry is
+    (override ∘ `plan_file_async`) — Update exactly over a symlink node, else Skip over a directory, else Create. -/
+theorem plan_file_async_dir_override_action (p : StrategyPlanner) (src : FileEntry) (w : PlanWorld) (t : Rs.Opaque)
+    (db : Option Rs.Opaque) (hd : src.is_dir = true) (cfg : Cfg) :
+    ∃ task, runM (p.plan_file_async extOf src w.root t db) w = (.ok task, w) ∧
+      absAct (overrideDirOverLink src.is_dir (w.linkAt task.dest_path) task.action) =
+        (planEntry cfg w.dst (absEntry w src)).act ∧
+      ((planEntry cfg w.dst (absEntry w src)).act = .update ↔
+        ∃ s, w.dst.get? (compsOf src.relative_path) = some (.symlink s)) := by
+  obtain ⟨task, h1, h2⟩ := plan_file_async_dir_override_eq_model p src w t db hd cfg
+  refine ⟨task, h1, ?_, ?_⟩
+  · have := congrArg Task.act h2
+    simpa [absTask] using this
+  · simp only [planEntry, absEntry, hd, ↓reduceIte]
+    cases hg : w.dst.get? (compsOf src.relative_path) with
+    | none => simp
+    | some n => cases n <;> simp
+
+/-- what `plan_file_async` ALONE answers for a directory entry over a destination symlink (unchanged by fix 862af11):
+    it probes through the link — Skip when the link resolves to a directory, Create when it resolves to a file or to
+    nothing — while the model's `planEntry` answers update: the difference is exactly the engine's override. -/
+theorem plan_file_async_dir_over_link_probes_through (p : StrategyPlanner) (src : FileEntry) (w : PlanWorld)
+    (t : Rs.Opaque) (db : Option Rs.Opaque) (hd : src.is_dir = true) (text : String)
+    (hl : w.dst.get? (compsOf src.relative_path) = some (.symlink text)) (cfg : Cfg) :
+    ∃ task, runM (p.plan_file_async extOf src w.root t db) w = (.ok task, w) ∧
+      (w.through (compsOf src.relative_path) = .dir → task.action = .Skip) ∧
+      (w.through (compsOf src.relative_path) ≠ .dir → task.action = .Create) ∧
+      overrideDirOverLink src.is_dir (w.linkAt task.dest_path) task.action = .Update ∧
+      (planEntry cfg w.dst (absEntry w src)).act = .update := by
+  refine ⟨_, plan_file_async_run p src w t db, ?_, ?_, ?_, ?_⟩
+  · intro hto
+    simp only [planAt, hd, stat_join, PlanWorld.resolve, hl, hto]
+  · intro hto
+    simp only [planAt, hd, stat_join, PlanWorld.resolve, hl]
+  · simp [overrideDirOverLink, hd, linkAt_join, hl]
   · simp only [planEntry, absEntry, hd, ↓reduceIte, hl]
 
 /-- with `--checksum` and no database, a source that cannot be read (vanished, a directory, …) against an existing
